@@ -136,6 +136,18 @@ func raceOnce(cb raceCombo, rng *rand.Rand, timeout time.Duration) {
 			rw.Write(pctx, []byte{9, 0})
 			a.Close()
 			b.Close()
+		case "bridgeclose":
+			// a bridge whose child lingers after its input ended and then says something on stderr: once Close has
+			// returned, the caller's stderr writer belongs to the caller again
+			var errbuf bytes.Buffer
+			c, err := varlink.NewBridgeWithStderr("cat >/dev/null; sleep 0.12; echo bridge-done >&2", &errbuf)
+			if err != nil {
+				return
+			}
+			c.Close()
+			_ = errbuf.String()
+			time.Sleep(60 * time.Millisecond)
+			_ = errbuf.String()
 		case "upgrade":
 			c, err := varlink.NewConnection(ctx, addr)
 			if err != nil {
